@@ -30,6 +30,10 @@ class Budget(Exception):
     pass
 
 
+class Diverged(Exception):
+    """a replayed decision prefix no longer fits the execution (assumptions changed between rounds)"""
+
+
 class PyRaise(Exception):
     def __init__(self, exc):
         self.exc = exc  # ExcVal
